@@ -26,10 +26,13 @@ def check_series_has_expected_type(series: pd.Series, internal_type: np.dtype) -
     Bool
 
     """
+    # Only the 64-bit types are used internally. Narrower numeric types need to be
+    # converted (which is lossless): Otherwise, computations would be carried out in the
+    # narrow type, e.g., `hh_id * 100` overflows for 8-bit or 16-bit integers.
     if (internal_type == float) & (is_float_dtype(series)):
-        out = True
+        out = series.dtype == numpy.float64
     elif (internal_type == int) & (is_integer_dtype(series)):
-        out = True
+        out = series.dtype == numpy.int64
     elif (internal_type == bool) & (is_bool_dtype(series)):
         out = True
     elif (internal_type == numpy.datetime64) & (is_datetime64_any_dtype(series)):
